@@ -133,9 +133,43 @@ func codeSwitches(fd *ast.FuncDecl) (outer [][2]string, inner [][2]string, ok bo
 	return
 }
 
+// prevLookups lists, per reconcile function and in source order, the `Index:` expression of every
+// `prevTransactionID := configapi.TransactionID{…}` (the transaction the function waits for).
+func prevLookups(f *ast.File) []string {
+	var out []string
+	for _, fn := range []string{"commitChange", "applyChange", "commitRollback", "applyRollback"} {
+		fd := findFunc(f, fn)
+		if fd == nil {
+			fail("%s: func %s not found", v3ctl, fn)
+			continue
+		}
+		ast.Inspect(fd.Body, func(n ast.Node) bool {
+			as, ok := n.(*ast.AssignStmt)
+			if !ok || len(as.Lhs) != 1 || len(as.Rhs) != 1 || exprString(as.Lhs[0]) != "prevTransactionID" {
+				return true
+			}
+			cl, ok := as.Rhs[0].(*ast.CompositeLit)
+			if !ok {
+				out = append(out, fmt.Sprintf("(%s, %s)", leanStr(fn), leanStr("?"+exprString(as.Rhs[0]))))
+				return true
+			}
+			idx := "?"
+			for _, el := range cl.Elts {
+				if kv, ok := el.(*ast.KeyValueExpr); ok && exprString(kv.Key) == "Index" {
+					idx = exprString(kv.Value)
+				}
+			}
+			out = append(out, fmt.Sprintf("(%s, %s)", leanStr(fn), leanStr(idx)))
+			return true
+		})
+	}
+	return out
+}
+
 func init() {
 	sections = append(sections, func() {
 		f := parseFile(v3ctl)
+		fmt.Fprintf(&out, "/-- which transaction each function of the v3 transaction reconciler looks up as `prevTransaction` (the `Index:` of every `prevTransactionID`, in source order) -/\ndef v3PrevLookups : List (String × String) := [%s]\n\n", strings.Join(prevLookups(f), ", "))
 		for _, h := range []struct{ goName, leanName string }{
 			{"updateConfigurationStatus", "v3SwallowCfgConflict"}, {"updateTransactionStatus", "v3SwallowTxConflict"}} {
 			fd := findFunc(f, h.goName)
